@@ -212,10 +212,12 @@ func newOracle(cfg Cfg) *oracle {
 			o.val, o.valT = &m, "0"
 		}
 	} else {
+		// a map keyed by the ids its entry points work on: an initial record given as id is the entry
+		// Get(id) / Update(id) / Delete(id) address, i.e. it is kept under icpt(id)
 		for _, rec := range cfg.Init {
 			p := strings.SplitN(rec, "~", 2)
-			if _, dup := o.items[p[0]]; !dup {
-				o.items[p[0]] = ritem{m: rparse(p[1]), t: "0"}
+			if _, dup := o.items[o.icpt(p[0])]; !dup {
+				o.items[o.icpt(p[0])] = ritem{m: rparse(p[1]), t: "0"}
 			}
 		}
 	}
